@@ -261,6 +261,29 @@ def run(R, tier, seed, driver_ok):
                     check_model(R, f'LSML[{kind}]', est, ret, Xq, dd, dd, False, False, case)
                 except Exception as e:
                     R.violation(f'LSML/fit-raises/{type(e).__name__}/degenerate-quadruplet', f'LSML on quadruplets containing one with {kind} raised {type(e).__name__}: {str(e)[:120]}', case)
+    # ---- a point recorded several times within its class (more often than LFDA's neighbour count k): its local scale — the
+    #      distance to its k-th nearest same-class neighbour — is zero
+    from metric_learn import LFDA
+    for rep in range(2 if not thorough else 8):
+        dd = int(rng.randint(2, 5)); ncl = int(rng.randint(2, 4))
+        Xr, yr = zoo.blobs(rng, dd, ncl, 8)
+        kk_ = [None, 1, 2][rep % 3]
+        keff = min(7, dd - 1) if kk_ is None else min(kk_, dd - 1)
+        src = int(rng.randint(len(Xr)))
+        Xr = np.vstack([Xr] + [Xr[src:src + 1]] * (keff + 1)); yr = np.concatenate([yr, np.full(keff + 1, yr[src])])
+        pm = rng.permutation(len(yr)); Xr, yr = Xr[pm], yr[pm]
+        for emb in ('plain', 'weighted', 'orthonormalized'):
+            for nco in (None, max(1, dd - 1)):
+                case = {'est': 'LFDA', 'params': {'k': kk_, 'embedding_type': emb, 'n_components': nco}, 'X': Xr, 'y': yr, 'note': f'one point recorded {keff + 2} times in its class'}
+                R.case(('c03-lfda-repeats', emb, nco, Xr.tobytes().hex()[:40]), True, branch='lfda-repeated-point')
+                try:
+                    with warnings.catch_warnings():
+                        warnings.simplefilter('ignore')
+                        est = LFDA(k=kk_, embedding_type=emb, n_components=nco)
+                        ret = est.fit(Xr, yr)
+                    check_model(R, 'LFDA[repeated point]', est, ret, Xr, dd, dd if nco is None else nco, False, False, case)
+                except Exception as e:
+                    R.violation(f'LFDA/fit-raises/{type(e).__name__}/repeated-point', f'LFDA(k={kk_}, embedding_type={emb!r}, n_components={nco}) on data with a point recorded {keff + 2} times raised {type(e).__name__}: {str(e)[:120]}', case)
     # ---- class means on a line (a rank-deficient between-class scatter): 'lda' / 'auto' still give the requested shape
     from metric_learn import NCA, LMNN
     for rep in range(2 if not thorough else 8):
